@@ -28,6 +28,7 @@ type State struct {
 	expects []Expect
 	aux     map[string]Value
 	depth   int
+	model   map[string]uint64 // an assignment satisfying pc (nil if unknown); never mutated in place
 }
 
 func (e *Engine) newState() *State {
@@ -36,7 +37,7 @@ func (e *Engine) newState() *State {
 
 func (s *State) fork() *State {
 	n := &State{heap: make(map[int]Value, len(s.heap)+8), pc: s.pc[:len(s.pc):len(s.pc)], log: s.log[:len(s.log):len(s.log)],
-		expects: s.expects[:len(s.expects):len(s.expects)], aux: s.aux, depth: s.depth}
+		expects: s.expects[:len(s.expects):len(s.expects)], aux: s.aux, depth: s.depth, model: s.model}
 	for k, v := range s.heap {
 		n.heap[k] = v
 	}
@@ -67,6 +68,7 @@ func (s *State) assume(c *Term) {
 			return
 		}
 	}
+	s.model = nil // callers that know a model of the extended pc set it afterwards
 	s.pc = append(s.pc[:len(s.pc):len(s.pc)], c)
 }
 
@@ -204,6 +206,9 @@ func (e *Engine) iteValue(c *Term, a, b Value) (Value, bool) {
 		if len(y.B) > n {
 			n = len(y.B)
 		}
+		if !e.cfg.SymbolicLen && x.N != y.N {
+			return nil, false
+		}
 		if n > e.cfg.MaxStrMerge {
 			if x.N == y.N && len(x.B) == len(y.B) {
 				same := true
@@ -283,6 +288,9 @@ func (e *Engine) iteValue(c *Term, a, b Value) (Value, bool) {
 		}
 		if x.Obj == 0 {
 			return a, true
+		}
+		if !e.cfg.SymbolicLen && x.N != y.N {
+			return nil, false
 		}
 		return &SliceV{Obj: x.Obj, Path: x.Path, Off: x.Off, N: e.tb.Ite(c, x.N, y.N), Cap: x.Cap}, true
 	case *MapV:
